@@ -153,6 +153,7 @@ func ExecSched(sc sim.Script) *sim.Outcome {
 	}
 	nt := len(s.Tasks)
 	hist := make([][]porcupine.Operation, nt)
+	missingSeen := make([]string, nt)       // per task: a complaint about nodes reported absent on a store that lost none
 	opCount := make([]map[string]int64, nt) // per task: which operations ran (merged into the stats after the run)
 	fns := make([]func(), nt)
 	est := 0
@@ -225,7 +226,23 @@ func ExecSched(sc sim.Script) *sim.Outcome {
 					t.mpt.GetChangeCount()
 				case "missing":
 					record = false
-					t.mpt.GetMissingNodeKeys()
+					for _, k := range t.mpt.GetMissingNodeKeys() {
+						if len(k) > 0 && !lossy { // (the empty key is what walking an empty trie leaves behind)
+							missingSeen[ti] = fmt.Sprintf("GetMissingNodeKeys contains %x although no node of this trie was ever absent", k)
+						}
+					}
+				case "pp":
+					// PrettyPrint walks the whole trie like Iterate: on a store that never lost a node its dump has no error lines
+					record = false
+					var buf bytes.Buffer
+					t.mpt.PrettyPrint(&buf)
+					if !lossy {
+						for _, line := range strings.Split(buf.String(), "\n") {
+							if strings.Contains(line, "err ") && !strings.Contains(line, "err  ") { // "err  ..." = the empty key: an empty trie has no root node
+								missingSeen[ti] = fmt.Sprintf("PrettyPrint printed %q although no node of this trie was ever absent", line)
+							}
+						}
+					}
 				case "hasmissing":
 					record = false
 					t.mpt.HasMissingNodes(context.Background())
@@ -282,6 +299,11 @@ func ExecSched(sc sim.Script) *sim.Outcome {
 	for ti, p := range res.Panics {
 		if p != nil {
 			w.fail("panic", "panic:"+firstLine(fmt.Sprint(p)), "task %d panicked: %v", ti, p)
+		}
+	}
+	for ti, m := range missingSeen {
+		if m != "" {
+			w.fail("c16.atomic", "node-reported-absent", "task %d: %s", ti, m)
 		}
 	}
 	for _, sig := range raceLog.New("github.com/0chain/common") {
